@@ -53,6 +53,20 @@ FORBIDDEN = [
     ("unlisted-call", "getattr(x,'real')"),
     ("unlisted-call", "type(x)"),
     ("unlisted-call", "y(x)"),
+    # the unlisted function sits in a compound callee expression: still "a call to an unlisted function"
+    ("unlisted-call-compound-callee", "(abs if x else exp)(x)"),
+    ("unlisted-call-compound-callee", "(exp if x else abs)(x)"),
+    ("unlisted-call-compound-callee", "(globals if 1 else exp)()"),
+    ("unlisted-call-compound-callee", "(abs or exp)(x)"),
+    ("unlisted-call-compound-callee", "(x and abs)(y)"),
+    ("unlisted-call-compound-callee", "[abs][0](x)"),
+    ("unlisted-call-compound-callee", "(abs,)[0](x)"),
+    ("unlisted-call-compound-callee", "{0: abs}[0](x)"),
+    ("unlisted-call-compound-callee", "(f := abs)(x)"),
+    ("unlisted-call-compound-callee", "(-abs)(x)"),
+    ("unlisted-call-compound-callee", "(exp + abs)(x)"),
+    ("unlisted-call-compound-callee", "(abs < exp)(x)"),
+    ("unlisted-call-compound-callee", "max(abs, exp)(x)"),
     ("double-underscore", "x__y"),
     ("double-underscore", "__import__('os')"),
     ("double-underscore", "x.__class__"),
@@ -270,8 +284,18 @@ def run_semantics(case):
                 exp = ref_eval(tree, env)
             except Exception:
                 continue
+            e2 = {k: (v.copy() if isinstance(v, np.ndarray) else v) for k, v in e2.items()}
             try:
                 got = fcn(**e2)
+            except Exception as e:
+                got = None
+            changed = [k for k in e2 if not np.array_equal(np.asarray(e2[k]), np.asarray(env[k]), equal_nan=True)]
+            if changed:
+                vs.append(V("evaluation-modified-its-arguments", f"{s!r}: evaluating the function changed the caller's array(s) {changed}: {({k: np.asarray(env[k]).tolist() for k in changed})} -> {({k: np.asarray(e2[k]).tolist() for k in changed})}", dict(expr=s)))
+                break
+            try:
+                if got is None:
+                    fcn(**e2)
             except Exception as e:
                 if not np.all(np.isfinite(np.asarray(exp, dtype=float))):
                     continue  # undefined in real arithmetic (e.g. 0**-1 on Python constants): an error is as good as inf
